@@ -347,7 +347,27 @@ def rule_N4(ctx):
     """No library function outside the option setters / registry writes options, class attributes or module globals."""
     m = ctx.m
     r = RuleResult('N4', 'option and global-state writes are confined to the setters')
-    for n in ctx.callgraph():
+    cg = ctx.callgraph()
+    callers = {}
+    for n0, edges in cg.items():
+        for (callee, cs) in edges:
+            callers.setdefault(callee[0], set()).add(n0[0])
+
+    def root_of(g):
+        while g.parent is not None:
+            g = g.parent
+        return g
+
+    def sanctioned(g, seen=()):
+        """One of the setters / registry writers, or a private helper that only they (transitively) call."""
+        g = root_of(g)
+        if ctx.rk(g.key) in GLOBAL_WRITERS or (g.cls in ('Options', '_MyModuleType') and (g.key.endswith('@setter') or g.name in ('__init__', '__new__'))):
+            return True
+        if not g.name.startswith('_') or g.name.startswith('__') or g.key in seen:
+            return False
+        cs = callers.get(g.key, set())
+        return bool(cs) and all(sanctioned(m.funcs[c], seen + (g.key,)) for c in cs if c != g.key)
+    for n in cg:
         f = m.funcs[n[0]]
         fa = ctx.fa(n)
         root = f
@@ -377,8 +397,7 @@ def rule_N4(ctx):
                 elif isinstance(base, ast.Name) and base.id in m.modglobals[f.mod] and base.id not in fa.final_env:
                     writes.append((x, 'write into a module-level container'))
         for x, what in writes:
-            is_setter = root.cls in ('Options', '_MyModuleType') and (root.key.endswith('@setter') or root.name in ('__init__', '__new__'))
-            if ctx.rk(root.key) in GLOBAL_WRITERS or is_setter:
+            if sanctioned(root):
                 r.ok(f"{f.key}:{norm(x)}", reason=True)
             else:
                 r.fail(f.key, x, f"{what} in a library function that is not one of the option/registry setters: the "
